@@ -9,6 +9,7 @@ THEOREMS = ["C02_guard_covers", "C02_acquired_is_covered", "C02_position_routes"
             "C02_every_schedule_data_under_hold", "C02_every_schedule_exclusive"]
 CASE_MODULES = ["Conc", "BMonitors", "WpMain"]
 CHECK_WITHOUT_PROOF = True
+SHRINK_GUARD = 0      # which of the booleans evaluated with the verdict certifies the theorem's hypotheses
 TRUSTED = common.TRUSTED_COMMON + ["deterministic scheduler of the harness: real OS threads, one runnable at a time, "
                                    "every raw lock operation and data access is a scheduling point"]
 ASSUMPTIONS = common.ASSUME_COMMON + ["grant policies of the auditing RwLock: reader-preferring and writer-preferring "
